@@ -98,7 +98,7 @@ def conv (t : CTy) : CVal → CVal
     | .i32 => .i32 (v.setWidth 32) | .u32 => .u32 (v.setWidth 32) | .i64 => .i64 v | .u64 => .u64 v
 
 /-- the value as 64 bits, extended according to its own signedness (value preserving) -/
-def CVal.wide : CVal → BitVec 64
+@[reducible] def CVal.wide : CVal → BitVec 64
   | .i32 v => v.signExtend 64 | .u32 v => v.setWidth 64 | .i64 v => v | .u64 v => v
 
 def castTo (t : CastTy) (v : CVal) : CVal :=
@@ -211,7 +211,7 @@ def arith (op : BinOp) (a b : CVal) : Res CVal :=
   | _, _ => .stuck
 
 /-- the shift count as an unsigned 64-bit number: a negative signed count becomes ≥ 2^63, hence ≥ any width -/
-def CVal.count : CVal → BitVec 64 := CVal.wide
+@[reducible] def CVal.count : CVal → BitVec 64 := CVal.wide
 
 /-- `E1 << E2` on a signed `E1`: defined iff `E1 ≥ 0` and `E1 × 2^E2` is representable -/
 def sshl {w : Nat} (x : BitVec w) (c : BitVec 64) : Res (BitVec w) :=
